@@ -22,7 +22,7 @@ ASSUMPTIONS = ["direction data (CR2L, CNEUT, mark patterns) are configuration re
                "joining behaviour is derived from the Unicode character database of the Python runtime (decompositions of U+FB50-U+FEFF)"]
 
 LAT = ["a", "b", "Z", "1", "9", "_"]
-NEU = [" ", ".", ",", "-", "(", ")", "!", ":", "/"]
+NEU = [" ", ".", ",", "-", "(", ")", "!", ":", "/", " ", "^", "~", "@", "#", "%", "&", "+", "=", "?", ";", "<", ">", "|", "\""]
 ARA = ["ا", "ب", "ل", "م", "ی", "ک", "ه", "و", "ء", "ـ", "پ", "؟", "،"]
 DIA = ["َ", "ّ", "ٰ"]
 ZW = ["‌", "‍"]
